@@ -36,7 +36,7 @@ PROPS = {
     "C02": dict(kinds=ALL, modes=["single"], judge="ACC", quick=150, thorough=6000,
                 theorems=["Verif.Verified.C02_bound", "Verif.Verified.C02_bound_anyclock", "Verif.Spec.size_le_cap_step"] + LIFT + REFINES + BUNDLES,
                 table=dict(target="Verif.Conc.ClockTable", pred="clockInside", classes=(8, 9),
-                           theorems=["Verif.Conc.table_clockInside", "Verif.Conc.table_clock_nonvacuous",
+                           theorems=["Verif.Conc.table_clockInside", "Verif.Conc.table_clock_nonvacuous", "Verif.Conc.wrapper_faithful",
                                      "Verif.Conc.generated_clock_under_lock", "Verif.Conc.generated_clock_order",
                                      "Verif.Conc.clock_under_lock", "Verif.Conc.clock_order"]),
                 explain="Theorem Verified.C02_bound (size <= capacity after every history) plus the Nodup/length invariants of each Refines proof; observers size/empty/capacity and the sweep are compared with the reference semantics after every call."),
